@@ -13,7 +13,7 @@ from mc.engine import Acc
 LEVEL = 'exploration'
 RULE = ('full product: 6 weight layouts (1..3 replicas; contiguous, strided, irregular) x every non-empty replica subset x '
         'per-replica subset kind {full, prefix, suffix, every-other, irregular pick} x all_configs {False, True} x call '
-        'form {Obs.reweight, pe.reweight list, Corr.reweight}; every misalignment kind must raise; all ordered pairs of '
+        'form {Obs.reweight, pe.reweight list, Corr.reweight}; every subset with >= 5 configurations of four 8/9-configuration weight chains (thorough: every pair of subsets of a two-replica weight); every misalignment kind must raise; all ordered pairs of '
         'the layout alphabet for correlate (aligned -> product observable, otherwise exception) incl. Corr.correlate with '
         'Obs and Corr partners and undefined slices; every set partition of 2- and 3-replica observables in every block '
         'order for merge_obs; qtop_projection on every layout; the reweighted flag through one further arithmetic step and '
@@ -22,6 +22,7 @@ RULE = ('full product: 6 weight layouts (1..3 replicas; contiguous, strided, irr
 ASSUMPTIONS = ['weights and observables are smooth functions of the configuration number plus seeded noise, so positional '
                'pairing gives visibly different numbers', 'propagation of the ratio is the C01 reference rule']
 EXHAUSTIVE = True
+REPEAT = 2      # every case is evaluated twice in the same process: the second verdict must equal the first (call-history oracle)
 CHUNK = 2
 
 W_LAYOUTS = [
@@ -82,6 +83,13 @@ def build(tier, seed):
             for sub in itertools.combinations(reps, k):
                 cases.append({'kind': 'rw', 'w': wi, 'reps': list(sub)})
         cases.append({'kind': 'rw-bad', 'w': wi})
+    # every subset: the observable on EVERY subset (>= 5 configurations) of a short weight chain
+    for wname in SHORT_W:
+        cases.append({'kind': 'rw-allsubsets', 'w': wname})
+    if tier == 'thorough':
+        # two replicas: every pair of subsets (one per replica) of two 7-configuration chains, and every single-replica subset
+        for first in range(0, 29, 4):
+            cases.append({'kind': 'rw-allsubsets2', 'block': first})
     cases.append({'kind': 'correlate'})
     cases.append({'kind': 'corr-correlate'})
     cases.append({'kind': 'merge'})
@@ -111,11 +119,81 @@ def check_flag_inherited(pe, res, what):
     return None
 
 
+SHORT_W = {
+    'contiguous8': {'A|r1': list(range(1, 9))},
+    'strided8': {'A|r1': list(range(3, 27, 3))},
+    'irregular8': {'A|r1': [2, 3, 5, 8, 9, 12, 14, 15]},
+    'shifted-strided9': {'A|r1': list(range(10, 28, 2))},
+}
+
+
+def all_subsets(cfgs, kmin=5):
+    for k in range(kmin, len(cfgs) + 1):
+        for sub in itertools.combinations(cfgs, k):
+            yield list(sub)
+
+
+def run_rw_allsubsets(pe, acc, case):
+    wl = SHORT_W[case['w']]
+    wsamp = samples_for(wl, wfun, ('ws', case['w']))
+    w = mk(pe, wl, wsamp)
+    n0 = sorted(wl)[0]
+    n = 0
+    for sub in all_subsets(wl[n0]):
+        ol = {n0: sub}
+        osamp = samples_for(ol, ofun, ('os', case['w'], tuple(sub)))
+        o = mk(pe, ol, osamp)
+        for allc in (False, True):
+            s = dict(case, subset=sub, all=allc)
+            if 'subset' in case and (case['subset'], case['all']) != (sub, allc):
+                continue
+            try:
+                res = pe.reweight(w, [o], all_configs=allc)[0]
+                bad = ref.close(expected_reweight(wl, wsamp, ol, osamp, allc), compare.to_ref(res), 1e-10)
+            except Exception as e:
+                bad = 'raised %s: %s' % (type(e).__name__, e)
+            if bad:
+                acc.fail('reweight:subset:%s' % ('all' if allc else 'own'), s, 'weight on %s, observable on the subset %s, all_configs=%s: %s' % (wl[n0], sub, allc, bad))
+            else:
+                acc.ok(('rws', case['w'], tuple(sub), allc), len(sub) < len(wl[n0]), 'reweight-subset')
+        n += 1
+    acc.sample({'kind': 'rw-allsubsets', 'weight': wl, 'subsets': n})
+
+
+def run_rw_allsubsets2(pe, acc, case):
+    wl = {'A|r1': list(range(1, 8)), 'A|r2': [2, 4, 5, 8, 10, 11, 14]}
+    wsamp = samples_for(wl, wfun, ('ws2',))
+    w = mk(pe, wl, wsamp)
+    s1 = list(all_subsets(wl['A|r1']))      # 29 subsets each
+    s2 = list(all_subsets(wl['A|r2']))
+    for a in s1[case['block']:case['block'] + 4]:
+        for b in s2 + [None]:
+            ol = {'A|r1': a} if b is None else {'A|r1': a, 'A|r2': b}
+            osamp = samples_for(ol, ofun, ('os2', tuple(a), tuple(b or ())))
+            o = mk(pe, ol, osamp)
+            for allc in (False, True):
+                s = dict(case, a=a, b=b, all=allc)
+                try:
+                    res = pe.reweight(w, [o], all_configs=allc)[0]
+                    bad = ref.close(expected_reweight(wl, wsamp, ol, osamp, allc), compare.to_ref(res), 1e-10)
+                except Exception as e:
+                    bad = 'raised %s: %s' % (type(e).__name__, e)
+                if bad:
+                    acc.fail('reweight:subset2:%s' % ('all' if allc else 'own'), s, 'two-replica weight, observable on %s / %s, all_configs=%s: %s' % (a, b, allc, bad))
+                else:
+                    acc.ok(('rws2', tuple(a), tuple(b or ()), allc), True, 'reweight-subset2')
+    acc.sample({'kind': 'rw-allsubsets2', 'block': case['block'], 'pairs': 4 * 30})
+
+
 def run_case(case):
     pe = engine.import_pyerrors()
     acc = Acc()
     k = case['kind']
-    if k == 'rw':
+    if k == 'rw-allsubsets':
+        run_rw_allsubsets(pe, acc, case)
+    elif k == 'rw-allsubsets2':
+        run_rw_allsubsets2(pe, acc, case)
+    elif k == 'rw':
         run_rw(pe, acc, case)
     elif k == 'rw-bad':
         run_rw_bad(pe, acc, case)
